@@ -9,12 +9,14 @@ VARS = {
     "reserved": ["S", "a#CNF#", "C#CNF#1", "S#SUBS#0", "#STARTUNION#"],
     "lower": ["s", "np", "vp", "x1", "y", "zed"],
     "termlike": ["S", "#TERM#a", "#TERM#b", "Start", "C#CNF#2"],
-    "odd": ["S", "1st", "_tmp", "#n", "Éa", "x-y"],         # variables that are neither lower- nor upper-case initial
+    "odd": ["S", "1st", "_tmp", "#n", "Éa", "x-y"],
+    "cnfnames": ["S", "C#CNF#2", "C#CNF#4", "C#CNF#1"],
+    "emptyname": ["#EMPTY", "S", "A", "#EMPTY#SUBS#0", "B"],   # the placeholder name substitute() gives a start-less operand         # variables that are neither lower- nor upper-case initial
 }
 TERMS = {
     "str": ["a", "b", "c", "d", "e"], "int": ["a", "b", "c"], "clash": ["a", "b", "c"],
     "reserved": ["a", "#0UNION#", "#1CONC#"], "lower": ["a", "b", "Cap"], "termlike": ["a", "b", "c"],
-    "odd": ["a", "Éb", "2"],
+    "odd": ["a", "Éb", "2"], "emptyname": ["a", "b", "c"], "cnfnames": ["a", "b", "c"],
 }
 VCS = ["str", "str", "str", "int", "clash", "reserved", "lower", "termlike", "inject", "inject"]
 
